@@ -18,6 +18,9 @@ use harness::{Prop, ReplayFile, Tier};
 macro_rules! dispatch {
     ($id:expr, $f:ident $(, $arg:expr)*) => {
         match $id {
+            "C07" => $f(&props::c07::C07 $(, $arg)*),
+            "C16" => $f(&props::c16::C16 $(, $arg)*),
+            "C19" => $f(&props::c19::C19 $(, $arg)*),
             "C18" => $f(&props::c18::C18 $(, $arg)*),
             other => {
                 eprintln!("harness error: no check for property {other}");
